@@ -170,6 +170,14 @@ def judge_line(prop, cfg, dbg, group, args, resp, st, reqline, mode, endian='lit
             st['unmodelled'][name] += 1
             continue
         e = exp[name]
+        if name.startswith('calib_'):
+            # pure oracle self-check: a Rust primitive operation executed by the driver, no bnum code involved
+            st['calib'] += 1
+            if not matches(e, obs):
+                st['oracle_mismatch'] += 1
+                if len(st['oracle_mismatch_samples']) < 5:
+                    st['oracle_mismatch_samples'].append({'request': reqline, 'op': name, 'model': repr(e), 'primitive': raw, 'mode': mode})
+            continue
         loose = e is ANY or e is NOPANIC or isinstance(e, (OneOf, Pred))
         ok_model = matches(e, obs)
         pr = pobs.get(name)
